@@ -209,13 +209,13 @@ func runChainCase(r *lib.Run, idx int) {
 	if err != nil {
 		r.Inconclusive("pebble open: " + err.Error())
 	} else {
+		defer os.RemoveAll(dir)
 		run("pebblev2", pst, func() (db.KeyValueStore, error) {
 			if err := pst.Close(); err != nil {
 				return nil, err
 			}
 			return pebblev2.New(dir)
 		})
-		os.RemoveAll(dir)
 	}
 	for _, x := range exp {
 		r.Case("chain|" + cfg + "|" + x.Desc)
@@ -600,13 +600,13 @@ func runShapeCase(r *lib.Run, idx int) {
 		if err != nil {
 			r.Inconclusive("pebble open: " + err.Error())
 		} else {
+			defer os.RemoveAll(dir)
 			run("pebblev2", pst, func() (db.KeyValueStore, error) {
 				if err := pst.Close(); err != nil {
 					return nil, err
 				}
 				return pebblev2.New(dir)
 			})
-			os.RemoveAll(dir)
 		}
 	}
 	// the stored objects themselves must not have been modified by writing them
